@@ -346,7 +346,8 @@ class Interp:
                     raise Undefined("increase/decrease on numeric text whose text order differs")
             yy = None if y is None else num(y)
             xx = None if x is None else num(x)
-            write, votes, tol = self._decide_assign(tq, xx, yy, rest)
+            # (asbool judges the value as it is assigned - the cell text - not its numeric reading)
+            write, votes, tol = self._decide_assign(tq, xx, yy, rest, truth_of=y)
         else:
             write, votes, tol = self._decide_assign(tq, x, y, rest)
         if len(votes) > 1:
@@ -360,7 +361,7 @@ class Interp:
             return NEUTRAL
         return True if v else False
 
-    def _decide_assign(self, quals, x, y, rest):
+    def _decide_assign(self, quals, x, y, rest, truth_of=None):
         from . import assign as table
         q = set(quals)
         if "onmatch" in q and not rest:
@@ -386,7 +387,7 @@ class Interp:
                 if "latch" in q and all(b in ("notnone", "increase", "decrease") for b in negative):
                     votes = {True, False}
         if "asbool" in q:
-            votes = {(table.truth(y) if v else v) for v in votes}
+            votes = {(table.truth(y if truth_of is None else truth_of) if v else v) for v in votes}
         if "nocontrib" in q:
             votes = {True}
         return write, votes, False
